@@ -458,6 +458,35 @@ func (g *FuncGen) QueryPart(o *Obligation, part int, models bool) string {
 	return g.queryPart(o, part, models, false)
 }
 
+// contextText: prelude, definitions, declarations and the function's
+// conditions, without any goal (for incremental sessions). `extra` is scanned
+// only to decide which optional prelude parts are needed.
+func (g *FuncGen) contextText(extra string) string {
+	var body strings.Builder
+	for _, d := range g.specDefs {
+		body.WriteString(d)
+		body.WriteString("\n")
+	}
+	for _, d := range g.decls {
+		body.WriteString(d)
+		body.WriteString("\n")
+	}
+	for i, a := range g.asserts {
+		if g.disabled[i+1] {
+			continue
+		}
+		body.WriteString("(assert ")
+		body.WriteString(a)
+		body.WriteString(")\n")
+	}
+	var b strings.Builder
+	b.WriteString("(set-logic ALL)\n")
+	b.WriteString(g.w.Prelude(body.String() + extra))
+	b.WriteString("(define-fun wf_slice ((s Slice)) Bool (and (>= (s_arr s) 0) (>= (s_off s) 0) (>= (s_len s) 0) (<= (s_len s) (s_cap s)) (<= (s_cap s) 9223372036854775807) (=> (= (s_arr s) 0) (and (= (s_off s) 0) (= (s_cap s) 0)))))\n")
+	b.WriteString(body.String())
+	return b.String()
+}
+
 func (g *FuncGen) queryPart(o *Obligation, part int, models bool, abstracted bool) string {
 	guard, goal := o.Guard, o.Goal
 	if len(o.Parts) > 0 {
